@@ -11,7 +11,12 @@ WORKERS = int(os.environ.get("BV_WORKERS", "0")) or min(16, os.cpu_count() or 1)
 
 
 class HarnessError(Exception):
-    """The harness itself misbehaved (non-determinism, worker crash): exit 2, never a VIOLATION."""
+    """The harness itself misbehaved (non-determinism): exit 2, never a VIOLATION."""
+
+
+class CheckCrashed(Exception):
+    """An exception nobody anticipated escaped from the code under test into the check (in a worker or in the parent).
+    On the unchanged tree this never happens; on a changed tree it is reported as a violation with the traceback."""
 
 
 def _call(packed):
@@ -44,6 +49,8 @@ def run_shards(fn, items, deadline, workers=None, into=None, ordered=False, pers
                 total.cap("deadline reached before all shards were started")
                 break
             kind, val = _call((fn, it, deadline))
+            if kind == "crash":
+                raise CheckCrashed(val)
             if kind != "ok":
                 raise HarnessError("shard %r failed: %s" % (it, val))
             total.merge(val)
@@ -56,6 +63,8 @@ def run_shards(fn, items, deadline, workers=None, into=None, ordered=False, pers
         packed = [(fn, it, deadline) for it in items]
         it = pool.imap(_call, packed, chunksize=1) if ordered else pool.imap_unordered(_call, packed, chunksize=1)
         for kind, val in it:
+            if kind == "crash":
+                raise CheckCrashed(val)
             if kind != "ok":
                 raise HarnessError("shard failed: %s" % (val,))
             total.merge(val)
